@@ -29,7 +29,10 @@ SPEC = {
                    "date) and 1-3 real uploader.Run calls executed as threads of the deterministic scheduler, one "
                    "os/http call per step ('os' and 'net/http' of internal/upload rewritten to yielding shims in the "
                    "scratch copy): sequential runs (Run; Run), random and bounded-context-switch interleavings, and "
-                   "the scripted three-uploader race; thorough tier adds the sweeps: uploader A runs i = 0..35 calls, then B to "
+                   "the scripted three-uploader race, the scripted scenario 'grow' (two runs of one process: the first "
+                   "finds the week's files still active and only parses them for their end date, then the programs go on "
+                   "counting - same files, larger values, a new counter -, the second run after the week's end must fold "
+                   "the values the files have THEN); thorough tier adds the sweeps: uploader A runs i = 0..35 calls, then B to "
                    "completion, then A, and A i calls / B j calls / rest, over a 9x9 grid. After every step local/ and upload/ (names, content classes, "
                    "report JSON parsed and sent per program entry: id of the full five-field identity, then (id, value) "
                    "of every entry of Counters and of Stacks - a stack name in Counters or a counter name in Stacks gets "
